@@ -15,7 +15,7 @@ for id in "${ids[@]}"; do
   fi
   out=$(./check $prop --tier quick 2>&1); rc=$?
   git -C $REPO checkout -- .; git -C $REPO clean -fdq
-  cls=$(echo "$out" | grep -m1 -o "class=[^ ]*")
+  cls=$(echo "$out" | grep -m1 "^  class=" | grep -o "class=[^ ]* key=[^ ]*")
   if [ $rc -eq 1 ] && echo "$out" | grep -q "^VIOLATION property=$prop "; then echo "$id $prop caught $cls"; else echo "$id $prop NOT-CAUGHT rc=$rc $(echo "$out" | grep -m1 HARNESS)"; bad=1; fi
   for f in replays/${prop}-*.json; do rm -f "$f"; done
 done
